@@ -305,16 +305,22 @@ def run_single_preemption(k, counter=[0]):
     return results, [expected, expected]
 
 
-STRING_PAIRS = 4
+STRING_PAIRS = 6
 
 
 def string_values(pair=0):
     """two values, each with ONE long string (the string's document is evaluated once per look-ahead that reaches
-    it and once for the layout itself; a top-level string once only)"""
+    it and once for the layout itself; a top-level string once only) - or each with a comment that has to wrap"""
+    from prettyprinter import comment, trailing_comment
     return [(['alpha ' * 20], ['bravo ' * 20]),
             ('alpha ' * 20, {'k': b'bravo ' * 20}),
             (('alpha ' * 12,), [[['bravo ' * 14]]]),
-            ({'a': 'alpha ' * 20}, 'bravo ' * 20)][pair]
+            ({'a': 'alpha ' * 20}, 'bravo ' * 20),
+            (comment([1, 2, 3], 'first value of the batch and a few more words after it'),
+             {'threshold': comment(0.25, 'fraction of the requests that may fail before the alarm goes off'), 'on': True}),
+            ([trailing_comment((1, 2), 'two numbers that belong together, said at length')],
+             comment({'k': [1]}, 'a remark long enough to be wrapped over more than one comment line')),
+            ][pair]
 
 
 def string_points(idx, width=40, pair=0):
